@@ -1729,6 +1729,7 @@ def run_impl_hist(case):
     out['mc'] = [[list(phs), [[key_of_py(k), canon_mval(k, v)] for k, v in caches.get((phs, chems), {}).items()]]
                  for _, phs in sorted(seen_phases)]
     out['sps'] = [dense(o, chems.size)[0] for o in sps]
+    out['clr'] = cfg_calls_clear_caches()       # which step models this tree's configuration calls
     return out
 
 def csitem(x):
@@ -1768,6 +1769,23 @@ def chobs(ob):
     if 'sw' in ob: return f'(HSW {cerr(ob["sw"])} {cvec(ob["d"])})'
     return f'(HB {cobs(ob)})'
 
+_repaired = []
+def cfg_calls_clear_caches():
+    """does THIS tree's set_alias / define_group empty the look-up caches (pending_fixes C10_4)?  Probed by behaviour: a key
+    is cached, a configuration call is made, the cache is inspected.  The model step follows the answer (hstepc clr)"""
+    if not _repaired:
+        tmo = env()['tmo']
+        ch = tmo.Chemicals([tmo.Chemical(x, search_db=False, MW=16., Hf=0., Cn=64., phase='l', default=True) for x in ('A_', 'B_')])
+        ch.compile()
+        ch._get_index_and_kind('A_')
+        a = bool(ch._index_cache)
+        ch.set_alias('A_', 'zz9')
+        b = not ch._index_cache
+        ch._get_index_and_kind('A_')
+        ch.define_group('Gq_', ['A_', 'B_'])
+        _repaired.append(a and b and not ch._index_cache)
+    return _repaired[0]
+
 def coq_case_hist(case, out):
     chems, cops = case_args(case, out)
     table = clist([f'({cstr(k)}, {ctarget(t)})' for k, t in out['table']])
@@ -1775,14 +1793,14 @@ def coq_case_hist(case, out):
     wcomps = clist([f'({cstr(k)}, {cvec(v)})' for k, v in out['wcomps']])
     cc = clist([f'(ec {ckey(k)} {ccindex(i)} {ckind(kd)})' for k, i, kd in out['cc']])
     mc = clist([f'({clist(ph, cstr)}, {clist([cmentry(k, v) for k, v in ents])})' for ph, ents in out['mc']])
-    return (f'(ecase_eqb {VARIANT} {chems} {cops} {clist(out["cop_errs"], cerr)} {clist([cixr(x) for x in case["ixs"]])} '
+    return (f'(ecasec_eqb {cbool(out["clr"])} {VARIANT} {chems} {cops} {clist(out["cop_errs"], cerr)} {clist([cixr(x) for x in case["ixs"]])} '
             f'{clist([qlist(d) for d in case["sps"]])} {clist([ceop_term(o) for o in case["ops"]])} {clist([chobs(o) for o in out["obs"]])} '
             f'{table} {clist(out["absent"], cstr)} {comps} {wcomps} {cc} {mc} {clist([cvec(d) for d in out["sps"]])})')
 
 def coq_show_hist(case, out):
     chems, cops = case_args(case, out)
     return (f'(match compile {chems} with Err e => None | Ok c0 => let (c, es) := cbuild c0 {cops} in '
-            f'Some (es, snd (erun {VARIANT} (mkhs c (mkst [] [] {clist([cixr(x) for x in case["ixs"]])}) {clist([qlist(d) for d in case["sps"]])}) '
+            f'Some (es, snd (erunc {cbool(out["clr"])} {VARIANT} (mkhs c (mkst [] [] {clist([cixr(x) for x in case["ixs"]])}) {clist([qlist(d) for d in case["sps"]])}) '
             f'{clist([ceop_term(o) for o in case["ops"][:80]])})) end)')
 
 def classify_hist(case, out):
@@ -1898,6 +1916,16 @@ def oracle_hist(case):
             hist_step(op, chems, ixs, sps, set())
     return None
 
-WITNESSES = [{'key': 'C10:config-stale-cache', 'case': corpus_cfg_redefine()},
-             {'key': 'C10:config-stale-cache', 'case': corpus_cfg_phase_alias()}]
-if os.environ.get('VERIF_C10_NO_WITNESS'): WITNESSES = []      # development aid only: everything else must be silent
+class _Witnesses(list):
+    """the witnesses of C10_cfg_redefine_refuted / C10_cfg_phase_alias_refuted apply to a tree whose configuration calls do
+    not empty the caches; on the repaired tree (pending_fixes C10_4) the same cases stay in CORPUS and must agree with the
+    repaired step.  Decided when the driver iterates (the implementation is importable then)"""
+    def __iter__(self):
+        if os.environ.get('VERIF_C10_NO_WITNESS'): return iter([])      # development aid only
+        try:
+            if cfg_calls_clear_caches(): return iter([])
+        except Exception:
+            pass
+        return list.__iter__(self)
+WITNESSES = _Witnesses([{'key': 'C10:config-stale-cache', 'case': corpus_cfg_redefine()},
+                        {'key': 'C10:config-stale-cache', 'case': corpus_cfg_phase_alias()}])
